@@ -34,5 +34,17 @@ d = json.load(open(p)); d["Replace"][k] = v; json.dump(d, open(p, "w"), indent=1
 PY
     ;;
 esac
+case "$prop" in
+  c13*)
+    # the node graph enumerates dependencies by ranging over maps: pin Go map iteration order
+    # (runtime overlay, DESIGN §3.4) so that every schedule replays deterministically
+    frag=$(python3 "$VERIF/tools/goroot-overlay/gen_map_overlay.py" "$ovdir/maprt")
+    python3 - "$ovdir/overlay.json" "$frag" <<'PY'
+import json, sys
+p, frag = sys.argv[1:]
+d = json.load(open(p)); d["Replace"].update(json.loads(frag)); json.dump(d, open(p, "w"), indent=1)
+PY
+    ;;
+esac
 cd "$VERIF/harness"
 go build $MODFLAG -race -overlay "$ovdir/overlay.json" -o "$out" "./cmd/${prop}s"
